@@ -140,6 +140,12 @@ def run_shard(rec, tier, seed, shard, nshards):
                 batch = sorted(set(batch) | set(int(x) for x in rng.choice(sorted(observed), size=int(rng.integers(1, min(2, len(observed)) + 1)), replace=False)))
                 rec.count("batches_with_observed_plates")
             batch_arg = batch if (batch or rng.random() < 0.5) else None
+            if batch_arg is not None and rng.random() < 0.4:
+                # the same batch handed over as another kind of collection
+                # (not as a numpy array: the parameter is documented as a list, and an array has no truth value)
+                how_ = int(rng.integers(4))
+                batch_arg = [tuple(batch), set(batch), frozenset(batch), dict.fromkeys(batch).keys()][how_]
+                rec.count("batches_given_as_" + ["tuple", "set", "frozenset", "dict_keys"][how_])
             cand = sorted(set(unobserved) - set(batch))
             # prescribed scores: finite, -inf, heavy ties
             style = str(rng.choice(["distinct", "ties", "neginf", "allequal", "nearly-equal", "posinf"]))
@@ -288,6 +294,10 @@ def run_shard(rec, tier, seed, shard, nshards):
                         if rng.random() < 0.5:
                             spelled.insert(int(rng.integers(0, len(spelled) + 1)), spelled[int(rng.integers(len(spelled)))])
                         rec.count("batches_spelled_unsorted_or_with_repeats")
+                    if len(spelled) and rng.random() < 0.3:
+                        how_ = int(rng.integers(4))
+                        spelled = [tuple(spelled), set(spelled), frozenset(spelled), dict.fromkeys(spelled).keys()][how_]
+                        rec.count("selection_batches_given_as_" + ["tuple", "set", "frozenset", "dict_keys"][how_])
                     sel = select_next_plate(comb, screen, policy, batch_plate_ids=(spelled if batch_arg is not None else None), rng=np.random.default_rng(0))
                     if pol_kind == "kper":
                         kper_allowed = recd.get("allowed")
